@@ -71,6 +71,25 @@ CHECKS = {
         note='IEEE rounding is outside the theorems (tolerance comparison); time.sleep is replaced by the assumption "returns no earlier than requested".',
         technique='Lean 4 proof (induction over the event list, omega) over a hand model in exact integer arithmetic; differential correspondence with float tolerance',
         design='5 C13'),
+    'C07': dict(
+        text='Model of write_track/save and of the whole reader (header, chunks, running status, sysex, meta, size-counted loop) '
+             'tied byte-for-byte to the implementation on generated files, unstorable variants and byte-level mutants; theorems so far: '
+             'success of write_track implies every time is a non-negative integer and no message is real-time, type-0 rule, bad time '
+             'anywhere => ValueError, VLQ read-back; the full save/load round-trip theorem is under construction and the round trip '
+             'itself is decided by the independent oracle over the generated domain.',
+        note='PARTIAL: the round-trip clause and the load-save-load fixed point rest on the correspondence + oracle in this revision, not yet on a theorem. '
+             'UnknownMetaMessage with a known type byte and header fields outside 16 bits are outside the property.',
+        technique='Lean 4 proof (safety of the writer) over a hand model of writer and reader; byte-exact differential correspondence incl. mutants',
+        design='5 C07'),
+    'C08': dict(
+        text='Padded-VLQ reading theorem for any legal spelling, minimality and shape of written VLQs, clip is the identity on valid bytes '
+             'and maps bytes above 127 to 127, every written track ends in an end_of_track event; the reader model is tied to the '
+             'implementation on random standard-conformant alternative encodings (running status at will, padded VLQs, longer headers) '
+             'in all four clip/debug configurations; the written bytes are judged by an independent reference SMF decoder.',
+        note='PARTIAL: conformance of whole files in both directions rests on the reference decoder / alternative-encoding oracle and the '
+             'correspondence in this revision; the EncTrack relation theorems are under construction. debug=True is I/O, correspondence-only.',
+        technique='Lean 4 proof (VLQ denotation by induction, clip lemmas) over a hand model; differential correspondence + independent reference decoder',
+        design='5 C08'),
 }
 
 PENDING = ['C02', 'C03', 'C04', 'C05', 'C06', 'C07', 'C08', 'C09', 'C10', 'C11', 'C12', 'C13', 'C14', 'C15',
